@@ -39,6 +39,8 @@ Class(r) == LET h == Lines(r)  n == Len(r.obs) IN
            /\ EndIdx(h) <= Len(h) /\ h[EndIdx(h)].s = "elided"
            /\ \A k \in 1..n : r.obs[k].kind = "err"
       THEN -6                                         \* a deep stack (elision line) is refused
+   ELSE IF ~WellFormed(h) /\ WellFormed(AsText(h)) /\ \E k \in 1..n : ~Allowed(h, r.vid, r.obs[k])
+      THEN -8         \* a later "sentinel ..." line changes the name
    ELSE IF /\ \A k \in 1..n : Allowed(h, r.vid, r.obs[k])
            /\ NonInterference(SelectSeq(r.obs, LAMBDA o : ~o.pathpc))
       THEN -7         \* names differ only between renderings with / without " pc=" in a path
